@@ -1371,6 +1371,82 @@ def _worker_dirs(w, W, payload):
     return agg
 
 
+# ------------------------------------------------------------------ part R: a file that appears after a failed first access
+R_KINDS = (("js", "js_file", "js", "/*late js*/"), ("css", "css_file", "css", ".late{}"), ("template", "template_file", "html", "<p>late</p>"))
+R_READS = ("class_attr", "instance_attr", "media", "render")
+
+
+def r_cases():
+    for kind in R_KINDS:
+        for first in R_READS:
+            for second in R_READS:
+                yield kind, first, second
+
+
+def _r_read(cls, attr, how):
+    if how == "class_attr":
+        return getattr(cls, attr)
+    if how == "instance_attr":
+        return getattr(cls(), attr)
+    if how == "media":
+        str(cls.media)
+        return getattr(cls, attr)
+    from mc.prog import strip_markers
+
+    return strip_markers(cls.render())
+
+
+def run_retry_part(mark):
+    """`js_file` / `css_file` / `template_file` name a file that does not exist yet: the first access fails (or yields nothing);
+    once the file exists the member must be its content - a failed resolution must not be remembered as "resolved"."""
+    from django_components import Component
+
+    agg = par.Agg()
+    sub = os.path.join(_ENV["root"], REL)
+    for n, ((attr, fattr, ext, content), first, second) in enumerate(r_cases()):
+        k = next(_CASE)
+        modname = f"verif_c16_r{os.getpid()}_{k}"
+        mod = types.ModuleType(modname)
+        mod.__file__ = os.path.join(sub, "comp.py")
+        sys.modules[modname] = mod
+        fname = f"{mark}_late_{k}.{ext}"
+        attrs = {"__module__": modname, fattr: fname}
+        if attr != "template":
+            attrs["template"] = "<html><head></head><body><p>t</p></body></html>"
+        cls = type(f"R{k}", (Component,), attrs)
+        agg.states += 1
+        agg.nontrivial += 1
+        path = os.path.join(sub, fname)
+        try:
+            agg.transitions += 1
+            try:
+                one = ("ok", _r_read(cls, attr, first))
+            except Exception as e:  # noqa
+                one = ("exc", type(e).__name__)
+            with open(path, "w") as f:
+                f.write(content)
+            agg.transitions += 1
+            try:
+                two = ("ok", str(_r_read(cls, attr, second)))
+            except Exception as e:  # noqa
+                two = ("exc", type(e).__name__, str(e)[:200])
+            agg.validated += 1
+            agg.observe((attr, first, one[0], second, two[0]))
+            agg.expected[f"{attr}:{first}>{second}"] += 1
+            ok = two[0] == "ok" and content.strip() in two[1]
+            if not ok:
+                agg.fail(f"R/{attr}/{first}>{second}",
+                         f"part R: class with {fattr} = {fname!r}; first access ({first}) while the file is missing gives {one}; after the file is "
+                         f"created, access ({second}) gives {two}, expected the file's content {content!r}",
+                         {"part": "R", "kind": attr, "first": first, "second": second, "spec": {"classes": []}})
+        finally:
+            sys.modules.pop(modname, None)
+            if os.path.exists(path):
+                os.unlink(path)
+    boot.clear_render_registries()
+    return agg
+
+
 def _merge(ctx, name, agg, bound, extra=None):
     import time
 
@@ -1440,6 +1516,8 @@ def run(ctx):
             "hierarchy": "P in c16sub/ <- C in c16sub2/ (<- G in c16sub/), same-named files in both directories",
             "child_media": list(D_CHILD_MEDIA), "child_js_file": list(D_CHILD_PAIR),
             "reads": [".".join(r) for r in D_READS], "orders": "every ordered choice of the first %d reads, then the rest" % (3 if quick else 4)})
+        agg = run_retry_part(mark)
+        _merge(ctx, "R_retry_after_missing_file", agg, {"members": [k[1] for k in R_KINDS], "first_access": list(R_READS), "second_access": list(R_READS)})
         agg = par.run_sharded(_worker_hist, (tier, mark))
         _merge(ctx, "H_histories", agg, {"n": 2 if quick else 3, "ops_per_class": 11, "search": "BFS to fixpoint + unmerged depth 2"})
         ev.assumptions = [
